@@ -482,6 +482,9 @@ structure TranscLaws (K : Type) [Field K] [LinearOrder K] [Transc K] : Prop wher
   sqrt_unit : ∀ x : K, 0 ≤ x → x ≤ 1 → 0 ≤ Transc.sqrt x ∧ Transc.sqrt x ≤ 1
   cbrt_unit : ∀ x : K, 0 ≤ x → x ≤ 1 → 0 ≤ Transc.cbrt x ∧ Transc.cbrt x ≤ 1
   cos_sin : ∀ x : K, Transc.cos x ^ 2 + Transc.sin x ^ 2 = 1
+  sqrt_pos : ∀ x : K, 0 < x → 0 < Transc.sqrt x
+  sqrt_mono : ∀ x y : K, 0 ≤ x → x ≤ y → Transc.sqrt x ≤ Transc.sqrt y
+  sqrt_sq : ∀ x : K, 0 ≤ x → Transc.sqrt x * Transc.sqrt x = x
 
 section prim
 variable [Transc K]
@@ -780,6 +783,9 @@ theorem realLaws : TranscLaws ℝ where
     have := Real.sqrt_le_sqrt h1; rwa [Real.sqrt_one] at this⟩
   cbrt_unit x h0 h1 := ⟨Real.rpow_nonneg h0 _, Real.rpow_le_one h0 h1 (by norm_num)⟩
   cos_sin x := Real.cos_sq_add_sin_sq x
+  sqrt_pos x h := Real.sqrt_pos.2 h
+  sqrt_mono x y _ h := Real.sqrt_le_sqrt h
+  sqrt_sq x h := Real.mul_self_sqrt h
 
 /-- non-vacuity: a disc whose centre moves with the parameter `t`, sampled at the row `t = 2` with the draws (1/4, 1/8) -/
 noncomputable def exDisc : Dom ℝ :=
